@@ -3,6 +3,7 @@ import Mqtt5V.Model.ReasonCode
 import Mqtt5V.Model.PidAlloc
 import Mqtt5V.Model.Mutex
 import Mqtt5V.Model.SerialOrder
+import Mqtt5V.Model.Utf8
 /-! `mdrv`: the model behind a one-line-in / one-line-out protocol (DESIGN.md Appendix B).
 Imports Model/Spec/Gen only (no Mathlib, so it links as a native executable). -/
 open Mqtt5V
@@ -27,8 +28,36 @@ def parseReqs : Nat → List String → Option (List Model.SerialOrder.Req)
     let rs ← parseReqs (n + 1) ts
     pure (r :: rs)
 
+def natsOf (s : String) : Option (List Nat) := (ofHexRep s).map fun b => b.map (·.toNat)
+
+def u8Step (ws : List String) : String :=
+  open Model.Utf8 in
+  match ws with
+  | ["char", c] =>
+    match c.toInt? with
+    | some i => if i < 0 then "2" else toString (Gen.Utf8Rule.charRule i.toNat)
+    | none => "bad-op"
+  | ["utf8", a] => match natsOf a with | some b => toString (validateUtf8 b) | none => "bad-op"
+  | ["name", a] => match natsOf a with | some b => toString (validateTopicName b) | none => "bad-op"
+  | ["alias", a] => match natsOf a with | some b => toString (validateTopicAliasName b) | none => "bad-op"
+  | ["filter", a] => match natsOf a with | some b => toString (validateTopicFilter b) | none => "bad-op"
+  | ["shared", a, w] => match natsOf a with | some b => toString (validateSharedTopicFilter b (w != "0")) | none => "bad-op"
+  | ["pair", a, b] =>
+    match natsOf a, natsOf b with
+    | some x, some y => if isValidStringPair x y then "0" else "2"
+    | _, _ => "bad-op"
+  | ["pop", a] =>
+    match natsOf a with
+    | some b =>
+      match popFront b with
+      | some (c, r) => s!"{c} {b.length - r.length}"
+      | none => "-1 0"
+    | none => "bad-op"
+  | _ => "bad-op"
+
 def pureStep (ws : List String) : String :=
   match ws with
+  | "u8" :: rest => u8Step rest
   | ["ord", "lt", p1, s1, p2, s2] =>
     match p1.toNat?, s1.toNat?, p2.toNat?, s2.toNat? with
     | some p1, some s1, some p2, some s2 =>
